@@ -250,9 +250,12 @@ class Resolver:
     itself through) and multiple reaching definitions stop the inlining: the
     Name is left in place (and recorded in `stopped`)."""
 
-    def __init__(self, fn: ast.FunctionDef, max_depth: int = 12):
+    def __init__(self, fn: ast.FunctionDef, max_depth: int = 12, proj: bool = False):
+        """proj: represent a name bound by tuple-unpacking of a call result as
+        `__proj__(<resolved call>, <index>)` instead of leaving the name."""
         self.flow = flow_of(fn)
         self.max_depth = max_depth
+        self.proj = proj
         self.stopped: List[Tuple[str, str]] = []
 
     def resolve(self, expr: ast.expr, at: Node, depth: int = 0, bound: Optional[Set[str]] = None) -> ast.expr:
@@ -278,7 +281,11 @@ class Resolver:
                     return node
                 val = select_path(d.value, d.path) if d.path else d.value
                 if val is None:
-                    # tuple unpacking of a non-literal (a call result): keep the name
+                    # tuple unpacking of a non-literal (a call result)
+                    if outer.proj:
+                        inner = outer.resolve(copy.deepcopy(d.value), d.node, depth + 1)
+                        idx = d.path[0] if len(d.path) == 1 and isinstance(d.path[0], int) else str(d.path)
+                        return ast.copy_location(ast.Call(func=ast.Name(id="__proj__", ctx=ast.Load()), args=[inner, ast.Constant(value=idx)], keywords=[]), node)
                     outer.stopped.append((node.id, "component of a call result"))
                     return node
                 # loop-carried? the definition node can be reached from `at` and depends on itself
